@@ -88,6 +88,29 @@ func Harness_C35_PersonCollision() {
 	}
 }
 
+// Harness_C35_PersonCollisionSymbolic (thorough tier only): every CRC-32 collision between a 4-byte uid and a
+// shorter one (each shorter uid has exactly one 4-byte partner) goes through the tie-break of EncodePersonChannel.
+func Harness_C35_PersonCollisionSymbolic() {
+	a := zzsym.String("a", 4)
+	b := zzsym.String("b", zzsym.Choice("b.len", 4))
+	zzsym.Assume(crc32.ChecksumIEEE([]byte(a)) == crc32.ChecksumIEEE([]byte(b)))
+	ab := EncodePersonChannel(a, b)
+	ba := EncodePersonChannel(b, a)
+	zzsym.Reach("symbolic-crc-collision")
+	zzsym.Assert(a != b, "different lengths cannot be equal")
+	zzsym.Assert(ab == ba, "EncodePersonChannel is not symmetric on a symbolic CRC-32 collision")
+	zzsym.Assert(ab == a+"@"+b || ab == b+"@"+a, "EncodePersonChannel on a collision is not a concatenation of the two uids")
+	if b != "" && c35CountSep(a) == 0 && c35CountSep(b) == 0 {
+		zzsym.Reach("symbolic-collision-clean")
+		l, r, err := DecodePersonChannel(ab)
+		zzsym.Assert(err == nil && c35SamePair(l, r, a, b), "colliding uids do not decode to the encoded pair (symbolic)")
+		na, erra := NormalizePersonChannel(a, ba)
+		nb, errb := NormalizePersonChannel(b, a+"@"+b)
+		zzsym.Assert(erra == nil && errb == nil && na == ab && nb == ab, "normalization is not canonical on a symbolic CRC-32 collision")
+	}
+	zzsym.Observe("symcoll", c35Sum(ab), c35CRC(a), c35CRC(b))
+}
+
 // Harness_C35_PersonDecode: decoding the canonical id yields the two users; with '@' (or an empty uid)
 // the decoder returns an error or the exact pair, never a different pair.
 func Harness_C35_PersonDecode() {
